@@ -28,7 +28,7 @@ func init() {
 			}
 			maxF := 6
 			if tier == "thorough" {
-				maxF = 8
+				maxF = 7
 			}
 			for n := 0; n <= maxF; n++ {
 				for a := 0; a < 3; a++ {
